@@ -4,9 +4,11 @@ E2: every valid interleaving of construct/run events of three instances (two sha
 interpreter, options of every live instance compared with its own expected snapshot after every event;
 caller-owned dict / arrays compared before vs after."""
 import configparser
+import hashlib
 import copy
 import itertools
 import json
+import logging
 import os
 import subprocess
 import sys
@@ -110,10 +112,16 @@ def construct(D, user):
 
     def f(x):
         calls[0] += 1
-        return float(np.sum(np.asarray(x) ** 2))
+        trace.append(np.asarray(x, float).ravel().tolist())
+        return float(np.sum((np.asarray(x) - 0.37) ** 2))
 
+    trace = []
     b = BADS(f, x0=np.zeros((1, D)), lower_bounds=np.full((1, D), -5.0), upper_bounds=np.full((1, D), 5.0),
              plausible_lower_bounds=np.full((1, D), -2.0), plausible_upper_bounds=np.full((1, D), 2.0), options=user)
+    try:
+        b._verif_trace = trace
+    except Exception:  # noqa
+        pass
     return b
 
 
@@ -205,7 +213,10 @@ def unknown_names(_):
 # ------------------------------------------------------------------ E2 driver (fresh interpreter per history)
 INST = {"A": (2, {"tol_fun": 7e-3, "max_fun_evals": 11, "search_method": [("ES-wcm", 1), ("ES-ell", 1)]}),
         "B": (3, {"max_fun_evals": 13, "uncertainty_handling": True, "noise_final_samples": 1, "tol_mesh": 1e-3}),
-        "C": (2, {"max_fun_evals": 12})}
+        "C": (2, {"max_fun_evals": 12, "display": "full", "noise_size": 0.5})}
+
+
+SEEDS = {"A": 3, "B": 4, "C": 5}   # distinct, so that another instance's seeding is visible in the global generator
 
 
 def histories(maxlen):
@@ -228,8 +239,34 @@ def histories(maxlen):
     return out
 
 
+def _digest(b, res):
+    return [np.asarray(res["x"], float).ravel().tolist(), float(res["fval"]), int(res["func_count"]), str(res["message"]),
+            hashlib.sha256(json.dumps(getattr(b, "_verif_trace", None)).encode()).hexdigest()[:16]]
+
+
+def solo(k):
+    """Reference for the *effect* of the options of instance k: constructed and run alone in a fresh interpreter."""
+    D, ov = INST[k]
+    b = construct(D, dict(dict(display="off"), **copy.deepcopy(ov), random_seed=SEEDS[k]))
+    return _digest(b, b.optimize())
+
+
+class _Rec(logging.Handler):
+    def __init__(self):
+        super().__init__(level=0)
+        self.levels = []
+
+    def emit(self, r):
+        self.levels.append(r.levelno)
+
+
 def drive(hist):
     """Executed in a fresh interpreter: replay the event history, compare after every event."""
+    solo_ref = json.loads(os.environ.get("C20_SOLO", "{}"))
+    logging.disable(logging.NOTSET)
+    rec = _Rec()
+    logging.getLogger("BADS").addHandler(rec)
+    logging.getLogger("BADS").propagate = False
     live = {}
     ran = set()
     bad = []
@@ -237,7 +274,7 @@ def drive(hist):
     for ev, k in hist:
         if ev == "new":
             D, ov = INST[k]
-            user = dict(copy.deepcopy(ov), display="off", random_seed=3)
+            user = dict(dict(display="off"), **copy.deepcopy(ov), random_seed=SEEDS[k])
             users[k] = user
             try:
                 live[k] = construct(D, user)
@@ -246,7 +283,14 @@ def drive(hist):
                 return bad
         elif ev == "run":
             try:
-                live[k].optimize()
+                del rec.levels[:]
+                res = live[k].optimize()
+                # effect of the instance's own options on its run, whatever was constructed or run in between:
+                # same run as alone (random_seed, and every option that shapes the run), and display='off' stays silent
+                if k in solo_ref and _digest(live[k], res) != solo_ref[k]:
+                    bad.append(("user-options-without-effect-at-run/%s" % k, (_digest(live[k], res), solo_ref[k])))
+                if users[k].get("display") == "off" and any(lv < logging.WARNING for lv in rec.levels):
+                    bad.append(("user-option-without-effect/display|instance-%s" % k, sorted(set(rec.levels))))
             except Exception as e:  # noqa
                 bad.append(("run-failed/%s" % k, repr(e)[:100]))
             ran.add(k)
@@ -264,7 +308,8 @@ def drive(hist):
             ref = reference_options(D, users[kk])
             skip = set(NORMALISED) - set(users[kk])
             if kk in ran:
-                skip |= OWN_RUN_REWRITES
+                # (noise_size is only ever derived when the user left it empty: a supplied value must survive the run)
+                skip |= OWN_RUN_REWRITES - ({"noise_size"} & set(users[kk]))
             if kk == "A" and ("poke", "A") in hist[: hist.index((ev, k)) + 1]:
                 skip |= {n for n, v in ref.items() if isinstance(v, (list, np.ndarray, dict))}
             for key, d in compare_options(b.options, ref, users[kk], skip=skip):
@@ -272,8 +317,19 @@ def drive(hist):
     return bad
 
 
-def _spawn(hist):
+_SOLO = {}
+
+
+def solo_refs():
+    if not _SOLO:
+        _SOLO.update({k: _fresh(("solo", k)) for k in INST})
+    return _SOLO
+
+
+def _spawn(item):
+    hist, refs = item
     env = dict(os.environ)
+    env["C20_SOLO"] = json.dumps(refs)
     env["PYTHONPATH"] = "%s:%s" % (REPO, VERIF)
     code = "import json,sys,warnings,logging; warnings.filterwarnings('ignore'); logging.disable(logging.CRITICAL)\n" \
            "from mc.props import c20\nh=[tuple(e) for e in json.loads(sys.argv[1])]\nprint('RESULT'+json.dumps(c20.drive(h), default=repr))"
@@ -381,7 +437,7 @@ def replay(case, key):
     elif kind == "owned":
         n, out = _fresh(("caller_owned", case["case"]))
     elif kind == "history":
-        h, bad, err = _spawn([tuple(e) for e in case["hist"]])
+        h, bad, err = _spawn(([tuple(e) for e in case["hist"]], solo_refs()))
         return any(("C20/" + k) == key for k, _ in bad)
     else:
         return False
@@ -426,12 +482,13 @@ def run(ctx):
         N += n
         for k, d, c in out:
             rep.violation("BADS mutated a caller-owned object", k, d, dict(kind="owned", case=c))
+    refs = dict(solo_refs())
     hs = histories(4 if q else 6)
     if not q and len(hs) > 1500:
         rep.cap_hit("histories capped at 1500 of %d" % len(hs))
         hs = hs[:1500]
     T = 0
-    for h, bad, err in pmap(_spawn, hs):
+    for h, bad, err in pmap(_spawn, [(h, refs) for h in hs]):
         T += len(h)
         if err is not None:
             raise HarnessError("history driver failed: %s" % err)
